@@ -451,10 +451,18 @@ def main():
         chk = None
         if tier == "thorough" and cq["ok"] and not replay:
             rc, out = coqchk(prop, log)
-            axl = re.findall(r"^\s*\*\s+(\S+)", out.split("Axioms:")[-1], re.M) if "Axioms:" in out else []
             chk = dict(rc=rc, tail=out.strip()[-600:])
             if rc != 0:
                 problems.append(("coqchk", "coqchk failed: " + out[-300:]))
+            m_ax = re.search(r"\* Axioms:(.*?)\n\s*\n\* ", out, re.S)
+            ax_txt = m_ax.group(1).strip() if m_ax else "?"
+            chk["axioms"] = ax_txt
+            if ax_txt != "<none>":
+                allow = load_allow()
+                for ax in re.findall(r"([A-Za-z_][A-Za-z0-9_'.]*)", ax_txt):
+                    short = ax.split(".")[-1]
+                    if short not in allow.get(prop, set()) and short not in allow.get("*", set()) and ax not in allow.get(prop, set()):
+                        problems.append(("coqchk", "coqchk reports axiom %s not in coq/ASSUMPTIONS.allow" % ax))
 
     ok_cargo, cargo_out, exe = cargo_build(prop, log)
     outdir = os.path.join(BUILD, "run", "%s-%s" % (prop, tier))
